@@ -153,6 +153,7 @@ package util
 //@ func TypeAssociationRegistry.HasType
 //@   props C02 C09 C10
 //@   ensures result == (len(tarList(tar, pkgPath, typeName)) > 0)
+//@   ensures result ==> contains(tarList(tar, pkgPath, typeName), tarList(tar, pkgPath, typeName)[0])
 //@   assigns nothing
 
 //@ func TypeAssociationRegistry.Empty
